@@ -91,6 +91,19 @@ NEEDS_F = {
  "C18": ("C18 (same change as c01/c08)", "server sniffer: `filled` recorded only after the read loop", "a partial read matching the preface followed by a Pending read"),
 }
 
+NEEDS_G = {
+ "C06": ("C06", "the per-origin idle table becomes a Vec indexed by token; pop removes an emptied slot with Vec::remove, shifting every higher token's idle list down", ">=2 origins, the higher-token origin has an idle connection, a checkout empties the lower-token origin's idle list: the other origin's idle connections end up under the wrong token"),
+ "C08": ("C08", "after a short read the sniffer compares the first n bytes of its buffer again instead of the n new bytes", "a request whose method starts with P (POST, PUT, PATCH), at least 24 bytes long, arriving one byte per read: served as HTTP/2"),
+ "C10": ("C10", "process_all returns NoProgress when no attempt is running after the initial batch (instead of when there are no candidates)", "initial concurrency Some(0) with at least one candidate: NoProgress at once, nothing attempted"),
+ "C11": ("C11", "the overall timeout wraps only the final drain phase, not the staggered start phase", "timeout Some(T), more candidates than the initial concurrency, nothing succeeding before T: completion at stagger time + T (never, with no stagger and a hanging first attempt)"),
+ "C12": ("C12 (same change as c17g)", "TlsTransportWrapper::call validates the bracket-stripped host but passes the unstripped URI host on as the TLS domain", "TLS configured, https/wss, bracketed IPv6 literal host, inner transport connects: expect() panic in TlsStream::new"),
+ "C13": ("C13", "check_http2_request keys on the request's version instead of the connection's", "a request whose version is not HTTP/2 (the default HTTP/1.1) on a connection that reports HTTP/2 (ALPN h2): no sanitising, CONNECT not rejected"),
+ "C16": ("C16", "sort_preferred uses swap_remove_front instead of remove", "an answer with both families that starts with >=2 addresses of one family: the second address of the leading family is put first, the tail order changes"),
+ "C17": ("C17 (same change as c12g)", "TlsTransportWrapper::call passes the unstripped URI host on as the TLS domain", "https request to a bracketed IPv6 host over a TLS-configured transport whose connect succeeds: panic in the caller's task"),
+ "C19": ("C19 (effectively C04/C01)", "Pool::checkout gives owns_attempt = multiplex to followers as well", "HTTP/2, >=3 overlapping requests to an origin without a connection, a follower dropped (timed out) while waiting: it cancels the leader's marker and the other waiters"),
+ "C20": ("C20", "host selection returns None for HTTP/1.0 and HTTP/0.9 (Host header ignored)", "HTTP/1.0 request with a Host header and a server name present: mismatching host forwarded, matching host forwarded without the validated mark"),
+}
+
 import sys
 ROUND = sys.argv[1] if len(sys.argv) > 1 else ""
 if ROUND == "b":
@@ -108,14 +121,17 @@ if ROUND == "e":
 if ROUND == "f":
     NEEDS = NEEDS_F
     SEEDROOT = '/tmp/seed6'
+if ROUND == "g":
+    NEEDS = NEEDS_G
+    SEEDROOT = '/tmp/seed7'
 confirm = {}
-for f in ([SEEDROOT + '/confirm.log'] if ROUND in ('c','d','e','f') else glob.glob('/tmp/seed/r2_confirm*.log') if ROUND == 'b' else glob.glob('/tmp/seed/confirm_*.log') + glob.glob('/tmp/seed/confirm_single_*.log')):
+for f in ([SEEDROOT + '/confirm.log'] if ROUND in ('c','d','e','f','g') else glob.glob('/tmp/seed/r2_confirm*.log') if ROUND == 'b' else glob.glob('/tmp/seed/confirm_*.log') + glob.glob('/tmp/seed/confirm_single_*.log')):
     for l in open(f):
         m = re.match(r'CONFIRM (C\d+): suite (with|without) change \(incl\. demo\): (.*)', l)
         if m:
             confirm.setdefault(m.group(1), {})[m.group(2)] = m.group(3).strip()
 evals = {}
-for f in ([SEEDROOT + '/eval.log'] if ROUND in ('c','d','e','f') else sorted(glob.glob('/tmp/seed/r2_eval*.log')) if ROUND == 'b' else sorted(glob.glob('/tmp/seed/eval_*.log'))):
+for f in ([SEEDROOT + '/eval.log'] if ROUND in ('c','d','e','f','g') else sorted(glob.glob('/tmp/seed/r2_eval*.log')) if ROUND == 'b' else sorted(glob.glob('/tmp/seed/eval_*.log'))):
     for l in open(f):
         m = re.match(r'(C\d+)\.out/patch\.diff: caught by:(.*)\| machinery:(.*)\| silent:(.*)', l)
         if m:
@@ -157,7 +173,7 @@ for sid, (prop, change, needs) in sorted(NEEDS.items()):
 
 if ROUND:
     with open('/verif/seeded/README.md', 'a') as f:
-        f.write(("\nRound 6 (fourth change for the pool, server and adapter properties; all earlier ideas named):\n\n|" if ROUND == "f" else "\nRound 5 (third change for the input- and time-quantified properties; all earlier ideas named):\n\n|" if ROUND == "e" else "\nRound 4 (pool, server and adapter properties again; both earlier ideas were named and had to be avoided):\n\n|" if ROUND == "d" else "\nRound 3 (properties that had one seed so far; the known idea was named and had to be avoided):\n\n|" if ROUND == "c" else "\nRound 2 (sub-agents were told which kind of defect already existed for the property and asked for a different one):\n\n|") + " seed | aimed at | change | needs | caught by (quick tier) |\n|---|---|---|---|---|\n")
+        f.write(("\nRound 7 (fourth change for the input- and time-quantified properties; all earlier ideas named):\n\n|" if ROUND == "g" else "\nRound 6 (fourth change for the pool, server and adapter properties; all earlier ideas named):\n\n|" if ROUND == "f" else "\nRound 5 (third change for the input- and time-quantified properties; all earlier ideas named):\n\n|" if ROUND == "e" else "\nRound 4 (pool, server and adapter properties again; both earlier ideas were named and had to be avoided):\n\n|" if ROUND == "d" else "\nRound 3 (properties that had one seed so far; the known idea was named and had to be avoided):\n\n|" if ROUND == "c" else "\nRound 2 (sub-agents were told which kind of defect already existed for the property and asked for a different one):\n\n|") + " seed | aimed at | change | needs | caught by (quick tier) |\n|---|---|---|---|---|\n")
         for sid, prop, change, needs, caught in rows:
             f.write(f"| {sid.lower()} | {prop} | {change} | {needs} | {' '.join(caught) if caught else '—'} |\n")
     print("kept", len(rows)); sys.exit(0)
